@@ -205,6 +205,21 @@ pub fn path_hash(path: &[loom::verif::Branch]) -> u64 {
 }
 
 pub fn run_case(p: &Program, cfg: &Config, opts: &CaseOpts, rng: &mut Rng) -> CaseReport {
+    // a lock guard dropped by a caught unwinding panic poisons the lock: acquiring it again
+    // panics (`lock().unwrap()`), exactly when the reference says so
+    let poisoning = p.threads.iter().flatten().any(|o| o.is_caught() && matches!(o.inner(), Op::Unlock { .. } | Op::WUnlock { .. }));
+    let mut opts_owned;
+    let opts = if poisoning {
+        opts_owned = opts.clone();
+        if !opts_owned.o3_must_classes.is_empty() {
+            // (completeness is not demanded of programs in the domain of K6: validity only)
+            opts_owned.o3_must_classes.push(FailClass::Poison);
+        }
+        opts_owned.o3_may_classes.push(FailClass::Poison);
+        &opts_owned
+    } else {
+        opts
+    };
     let mut rep = CaseReport { program: p.text(), program_hash: p.hash(), nontrivial: p.nontrivial(), ..Default::default() };
     let col = Rc::new(RefCell::new(Collector {
         outcomes: BTreeMap::new(),
@@ -465,6 +480,7 @@ pub fn run_case(p: &Program, cfg: &Config, opts: &CaseOpts, rng: &mut Rng) -> Ca
                 let just = match class {
                     FailClass::Deadlock => replay_may_any(p, &h, &may, true, |a| a.deadlocked),
                     FailClass::Race => justify_race(p, &h, &may),
+                    FailClass::Poison => replay_may_any(p, &h, &may, true, |a| a.poisoned),
                     FailClass::Leak(kind) => {
                         let k = kind.clone();
                         replay_may_any(p, &h, &may, false, move |a| a.leaks.iter().any(|x| x == &k))
